@@ -323,7 +323,21 @@ def empty_type_shape(w, rng, k):
     return em.Exists(em.And(conj), u)
 
 
-def empty_unused_tags(e, w):
+def binds_type(e, t):
+    """does e contain a quantifier that binds a variable of user type t"""
+    seen, st = set(), [e]
+    while st:
+        n = st.pop()
+        if n in seen:
+            continue
+        seen.add(n)
+        st.extend(n.args)
+        if (n.is_exists() or n.is_forall()) and any(v.type == t for v in n.variables()):
+            return True
+    return False
+
+
+def empty_unused_tags(e, w, objs_tab=None):
     """tags of the known shape: a quantifier over a type without objects whose variable is unused (in the simplified body)"""
     tags, seen, st = set(), set(), [e]
     while st:
@@ -335,7 +349,7 @@ def empty_unused_tags(e, w):
         if n.is_exists() or n.is_forall():
             fv = w.env.free_vars_oracle.get_free_variables(n.arg(0).simplify())
             for v in n.variables():
-                if not w.objects_of(v.type):
+                if not (w.objects_of(v.type) if objs_tab is None else objs_tab.get(v.type, [])):
                     tags.add("quantifier-over-empty-type")
                     if v not in fv:
                         tags.add("unused-bound-variable")
@@ -527,9 +541,28 @@ def run(ctx):
             for v in w.free_vars:
                 names.var(v)
             S = Simplifier(w.env, w.problem)
+            # History family (seeded change C11-6): a SECOND problem of the same environment — same fluents, actions, initial
+            # values and user types, but the type T3 (object-less in w.problem) HAS an object here.  Both simplifiers live in the
+            # same process and are used alternately on the same expressions; every result is judged by the model with the tables
+            # of ITS problem (c_empty, object table, static table, interpretations over ITS objects), so what one problem's
+            # simplifier learnt about a type must not leak into the other's answers.
+            from unified_planning.model import Object as _Object, Variable as _Variable
+            pb2 = w.problem.clone()
+            pb2.name = "w2"
+            e0 = _Object("e0", w.T3, w.env)
+            pb2.add_object(e0)
+            b4v = bool(wi % 2)
+            pb2.set_initial_value(w.f4(e0), b4v)
+            S2 = Simplifier(w.env, pb2)
+            static2 = pb2.get_static_fluents()
+            assert static2 == w.static and not list(w.problem.objects(w.T3)) and list(pb2.objects(w.T3)) == [e0]
+            # even worlds: the problem where T3 has objects answers first, then the one where it has none; odd worlds: reverse
+            order = (None, "w2", "w") if wi % 2 == 0 else (None, "w", "w2")
             stats["worlds_without_static_fluents"] = stats.get("worlds_without_static_fluents", 0) + int(not w.static)
             assert w.all_dynamic == (not w.static)
             objs_tab = {t: w.objects_of(t) for t in w.all_types() + [w.T3]}
+            objs_tab2 = dict(objs_tab)
+            objs_tab2[w.T3] = [e0]
             # interpretations (shared by all the cases of this world); fluent domains here are too big to enumerate, so
             # sampled: random total, corner, and partial (some fluents undefined)
             interps = []
@@ -540,6 +573,19 @@ def run(ctx):
             for k, (fl, par, var, ifun) in enumerate(interps):
                 pre.append("Definition I%d_w%d : finterp := %s.\n" % (k, wi, ser_finterp(fl, par, var, ifun, objs_tab, names)))
             pre.append("Definition IS_w%d : list finterp := %s.\n" % (wi, glist(["I%d_w%d" % (k, wi) for k in range(n_interps)])))
+            # the same interpretations over the objects of the second problem (+ a value for b4(e0): its initial value when b4 is static)
+            interps2 = []
+            for k, (fl, par, var, ifun) in enumerate(interps):
+                fl2 = dict(fl)
+                if not (k % 5 == 4 and w.f4 not in static2):
+                    fl2[(w.f4, (e0,))] = b4v if w.f4 in static2 else (k % 2 == 0)
+                interps2.append((fl2, par, var, ifun))
+                # serialised as a delta of I<k>: only the b4(e0) row and the object table are new (keeps the Coq preamble small)
+                delta = ser_finterp({x: y for x, y in fl2.items() if x not in fl}, {}, {}, {}, objs_tab2, names)
+                pre.append(("Definition D%d_w%d : finterp := %s.\nDefinition J%d_w%d : finterp := {| f_fl := f_fl D%d_w%d ++ f_fl I%d_w%d; "
+                            "f_par := f_par I%d_w%d; f_var := f_var I%d_w%d; f_ifun := f_ifun I%d_w%d; f_objs := f_objs D%d_w%d |}.\n")
+                           % ((k, wi, delta) + (k, wi) * 7))
+            pre.append("Definition JS_w%d : list finterp := %s.\n" % (wi, glist(["J%d_w%d" % (k, wi) for k in range(n_interps)])))
             # tables
             obj_ty = glist([gpair(gn(names.obj(o)), gn(names.ty(o.type))) for t in w.all_types() for o in w.objs[t]])
             par_ty = glist([gpair(gn(names.par(p)), gn(names.ty(p.type))) for p in w.params if p.type.is_user_type()])
@@ -560,6 +606,13 @@ def run(ctx):
                        % (wi, obj_ty, wi, par_ty, wi, fl_ty, wi, anc))
             pre.append("Definition STAT_w%d : list (N * list expr * expr) := %s.\nDefinition ITAB_w%d : list (N * list expr * expr) := %s.\n"
                        % (wi, glist(stat_rows), wi, glist(itab_rows)))
+            stat_rows2 = list(stat_rows)
+            if w.f4 in static2:
+                stat_rows2.append("(%s, %s, %s)" % (gn(names.fl(w.f4)), glist([ser_expr(em.ObjectExp(e0), names)]), ser_expr(em.Bool(b4v), names)))
+            obj_ty2 = glist([gpair(gn(names.obj(o)), gn(names.ty(o.type))) for t in w.all_types() + [w.T3] for o in objs_tab2[t]
+                             if o.type == t])
+            pre.append("Definition OBJ_TY2_w%d := %s.\nDefinition STAT2_w%d : list (N * list expr * expr) := %s.\n"
+                       % (wi, obj_ty2, wi, glist(stat_rows2)))
 
             first = len(cases)
             corpus = []
@@ -574,10 +627,25 @@ def run(ctx):
                           em.Exists(em.And(em.Equals(cu, a0), em.Forall(b1f(cu), cv)), cu),
                           em.Exists(em.And(em.Not(em.Exists(b1f(cu), cv)), em.Equals(a0, cu)), cu),
                           em.Exists(em.And(em.Equals(cu, a0), b1f(cu), em.Forall(em.Bool(False), cv)), cu)]
-            for k in range(per_world + len(corpus)):
-                r = rng.random()
+            # history corpus, FIRST in every world (no use of rng: the random stream of the other cases is unchanged): quantifiers
+            # over T3 whose variable is unused / used / unused after simplification, alone and below an equality elimination
+            hb0 = [f for f in w.fluents if f.name == "b0"][0]
+            hb1 = [f for f in w.fluents if f.name == "b1"][0]
+            hv = _Variable("h0", w.T3, w.env)
+            hu = _Variable("h1", w.T0, w.env)
+            ha0 = em.ObjectExp(w.objs[w.T0][0])
+            hist = [em.Forall(hb0(), hv), em.Exists(em.Not(hb0()), hv), em.Forall(hb1(ha0), hv), em.Exists(hb1(em.VariableExp(w.free_vars[0])), hv),
+                    em.Forall(w.f4(hv), hv), em.Exists(em.And(w.f4(hv), hb0()), hv),
+                    em.Exists(em.Or(w.f4(hv), em.Not(w.f4(hv))), hv), em.Forall(em.Bool(False), hv), em.Exists(em.Bool(True), hv),
+                    em.Exists(em.And(em.Equals(hu, ha0), em.Forall(hb1(hu), hv)), hu),
+                    em.Forall(em.Or(hb1(hu), hb0()), hv, hu)]
+            for k in range(-len(hist), per_world + len(corpus)):
+                r = rng.random() if k >= 0 else 0.0
                 try:
-                    if k >= per_world:
+                    if k < 0:
+                        e = hist[k + len(hist)]
+                        tgt = True
+                    elif k >= per_world:
                         e = corpus[k - per_world]
                         tgt = True
                     elif r < 0.45:
@@ -591,8 +659,13 @@ def run(ctx):
                         e = w.gen_bool(d, scope) if rng.random() < 0.75 else w.gen_num(d, scope)
                 except ZeroDivisionError:
                     continue
-                for with_problem in (False, True):
-                    simp = S.simplify if with_problem else (lambda x: x.simplify())
+                # the second problem's simplifier: on every expression that quantifies over T3 and on every 8th other one
+                two = k < 0 or k % 8 == 0 or binds_type(e, w.T3)
+                for variant in order:
+                    if variant == "w2" and not two:
+                        continue
+                    with_problem = variant is not None
+                    simp = {None: (lambda x: x.simplify()), "w": S.simplify, "w2": S2.simplify}[variant]
                     exc = None
                     try:
                         o1 = simp(e)
@@ -607,6 +680,7 @@ def run(ctx):
                         continue
                     stats["expressions"] += 1
                     stats["with_problem"] += int(with_problem)
+                    stats["second_problem_same_env"] = stats.get("second_problem_same_env", 0) + int(variant == "w2")
                     if o1 is None:
                         stats["raised_div0"] += 1
                     elif o1 != e:
@@ -625,16 +699,17 @@ def run(ctx):
                     n_ops = sum(c for x, c in ok_.items() if not x.endswith("CONSTANT") and x not in ("OBJECT_EXP", "PARAM_EXP", "VARIABLE_EXP"))
                     if n_ops >= 3 and o1 != e:
                         nontrivial.add((str(e), with_problem))
-                    g = ("{| c_obj_ty := OBJ_TY_w%d; c_par_ty := PAR_TY_w%d; c_fl_ty := FL_TY_w%d; c_if_ty := []; c_anc := ANC_w%d; c_tau := %s; c_empty := %s; "
-                         "c_stat := %s; c_itab := ITAB_w%d; c_e := %s; c_out := %s; c_out2 := %s; c_interps := IS_w%d |}") % (
-                        wi, wi, wi, wi, glist([gpair(gn(names.var(v)), gn(names.ty(v.type))) for v in all_vars(e)]),
-                    glist([gn(names.ty(w.T3))]) if with_problem else "[]",
-                        ("STAT_w%d" % wi) if with_problem else "NOSTAT", wi, ser_expr(e, names),
-                        gopt(None if o1 is None else ser_expr(o1, names)), gopt(None if o2 is None else ser_expr(o2, names)), wi)
+                    g = ("{| c_obj_ty := OBJ_TY%s_w%d; c_par_ty := PAR_TY_w%d; c_fl_ty := FL_TY_w%d; c_if_ty := []; c_anc := ANC_w%d; c_tau := %s; c_empty := %s; "
+                         "c_stat := %s; c_itab := ITAB_w%d; c_e := %s; c_out := %s; c_out2 := %s; c_interps := %s_w%d |}") % (
+                        "2" if variant == "w2" else "", wi, wi, wi, wi, glist([gpair(gn(names.var(v)), gn(names.ty(v.type))) for v in all_vars(e)]),
+                        glist([gn(names.ty(w.T3))]) if variant == "w" else "[]",
+                        {None: "NOSTAT", "w": "STAT_w%d" % wi, "w2": "STAT2_w%d" % wi}[variant], wi, ser_expr(e, names),
+                        gopt(None if o1 is None else ser_expr(o1, names)), gopt(None if o2 is None else ser_expr(o2, names)),
+                        "JS" if variant == "w2" else "IS", wi)
                     cases.append(g)
-                    raw.append({"world": wi, "expression": e, "with_problem": with_problem, "out": o1, "out2": o2, "exception": exc,
+                    raw.append({"world": wi, "expression": e, "with_problem": with_problem, "variant": variant, "history": list(order), "out": o1, "out2": o2, "exception": exc,
                                 "targeted": tgt})
-            worlds[wi] = ({"w": w, "names": names, "interps": interps, "objs_tab": objs_tab})
+            worlds[wi] = ({"w": w, "names": names, "interps": interps, "objs_tab": objs_tab, "interps2": interps2, "objs_tab2": objs_tab2})
             all_pre.append("".join(pre))
             # coverage: how many (expression, interpretation) pairs are defined (python reference evaluator, sample)
             mine = raw[first:]
@@ -668,6 +743,8 @@ def run(ctx):
             c = raw[i]
             wc = worlds[c["world"]]
             w, names, interps, objs_tab = wc["w"], wc["names"], wc["interps"], wc["objs_tab"]
+            if c["variant"] == "w2":   # judged over the objects / interpretations of the second problem
+                interps, objs_tab = wc["interps2"], wc["objs_tab2"]
             e, o1, o2 = c["expression"], c["out"], c["out2"]
             comps = comps_of.get(i, "")
             # the property itself, decided by the independent Python evaluator on the implementation's output
@@ -698,14 +775,17 @@ def run(ctx):
                 ctx.fail("harness", "generated expression outside the domain of simplify_sound (wfx false): %s" % e,
                          ["c11", "generator-outside-wfx"], {"expression": str(e), "coq": comps}, False)
                 continue
-            tags = ["c11", "with_problem" if c["with_problem"] else "no_problem"] + sorted("op:" + x for x in op_kinds(e))
+            tags = ["c11", "with_problem" if c["with_problem"] else "no_problem"] + (["second-problem-same-env"] if c["variant"] == "w2" else []) + sorted("op:" + x for x in op_kinds(e))
             tags += ["fails:" + x.split(":")[0].replace(" ", "_") for x in why]
-            tags += empty_unused_tags(e, w)
+            tags += empty_unused_tags(e, w, objs_tab)
             if len(why) == 1 and why[0].startswith("value changed"):
                 tags.append("only:value_changed")
             ctx.fail("corr" if not prop_fails else "oracle",
                      "Simplifier: %s (corr:C11:simplify / simplify_sound)" % ("; ".join(why) if why else "model and implementation disagree"),
                      tags, {"world": c["world"], "expression": str(e), "with_problem": c["with_problem"],
+                            "problem": {None: "none (e.simplify())", "w": "w (type T3 has no objects)",
+                                        "w2": "w2 (same environment and types as w; T3 has the object e0)"}[c["variant"]],
+                            "history (order in which the simplifiers of this world are used on every expression)": c["history"],
                             "implementation": str(o1), "second_pass": str(o2), "exception": c["exception"],
                             "coq (ok_struct, ok_value, ok_fv, ok_idem, hyp_ok, model_out, model_raises, model_div0)": comps,
                             "names": names.table(), "case": cases[i][:6000],
